@@ -402,4 +402,136 @@ def OptD.ser (v : OptD) : Text :=
   | none => joinNl v.lines
 def OptD.json (slash skipNone : Bool) (v : OptD) : J := .obj (partyJson slash skipNone v.party ++ [("name_and_address", J.lines v.lines)])
 
+/-! ### customer / beneficiary fields: 50 `4*35x`, 50C BIC, 50L `35x`, 50G `/34x` + BIC, 50H `/34x` + `4*35x`,
+50K / 59 `[/34x]` + `4*35x`, 59A `[/34x]` + BIC, 51A `[/1!a][/34x]` + BIC -/
+
+/-- `/` + 1..34 x-characters (the account line of 50G, 50H, 50K) -/
+def acctStrict (l : Text) : Res Text :=
+  match l with
+  | '/' :: acc => if acc.isEmpty || blen acc > 34 then .err else if acc.all isSwiftX then .ok acc else .err
+  | _ => .err
+
+def F50NoOption.parse (input : Text) : Res (List Text) :=
+  let ls := splitNl input
+  if ls.length > 4 then .err else if ls.all nameLineOk then .ok ls else .err
+
+def F50L.parse (input : Text) : Res Text :=
+  if input.contains '\n' then .err
+  else if input.isEmpty || blen input > 35 then .err
+  else if input.all isSwiftX then .ok input else .err
+
+structure AcctBic where
+  account : Text
+  bic : Text
+  deriving Repr, DecidableEq
+
+def F50G.parse (input : Text) : Res AcctBic :=
+  match splitNl input with
+  | [l0, l1] =>
+    (match acctStrict l0 with
+     | .ok acc => (match parseBic l1 with | .ok b => .ok ⟨acc, b⟩ | .err => .err | .panic => .panic)
+     | .err => .err
+     | .panic => .panic)
+  | _ => .err
+def F50G.ser (v : AcctBic) : Text := '/' :: v.account ++ '\n' :: v.bic
+
+structure AcctLines where
+  account : Option Text
+  lines : List Text
+  deriving Repr, DecidableEq
+
+def F50H.parse (input : Text) : Res AcctLines :=
+  match splitNl input with
+  | l0 :: l1 :: rest =>
+    (match acctStrict l0 with
+     | .ok acc => if !((l1 :: rest).all nameLineOk) then .err else if (l1 :: rest).length > 4 then .err else .ok ⟨some acc, l1 :: rest⟩
+     | .err => .err
+     | .panic => .panic)
+  | _ => .err
+
+def F50K.parse (input : Text) : Res AcctLines :=
+  match splitNl input with
+  | [] => .err
+  | l0 :: rest =>
+    if l0.head? == some '/' then
+      (match acctStrict l0 with
+       | .ok acc => (match parseNameAndAddress rest 0 with | .ok ls => .ok ⟨some acc, ls⟩ | .err => .err | .panic => .panic)
+       | .err => .err
+       | .panic => .panic)
+    else
+      match parseNameAndAddress (l0 :: rest) 0 with | .ok ls => .ok ⟨none, ls⟩ | .err => .err | .panic => .panic
+
+/-- the optional account line of 59 / 59A: `/` + identifier; an identifier longer than 34 bytes is not an account (the
+line is then read as a name line / BIC and fails there) -/
+def acctLenient (l : Text) : Res (Option Text) :=
+  match l with
+  | '/' :: id =>
+    if id.isEmpty then .err
+    else if blen id ≤ 34 then (if id.all isSwiftX then .ok (some id) else .err)
+    else .ok none
+  | _ => .ok none
+
+def F59.parse (input : Text) : Res AcctLines :=
+  match splitNl input with
+  | [] => .err
+  | l0 :: rest =>
+    match acctLenient l0 with
+    | .ok (some acc) => (match parseNameAndAddress rest 0 with | .ok ls => .ok ⟨some acc, ls⟩ | .err => .err | .panic => .panic)
+    | .ok none => (match parseNameAndAddress (l0 :: rest) 0 with | .ok ls => .ok ⟨none, ls⟩ | .err => .err | .panic => .panic)
+    | .err => .err
+    | .panic => .panic
+def AcctLines.ser (v : AcctLines) : Text :=
+  match v.account with
+  | some a => joinNl (('/' :: a) :: v.lines)
+  | none => joinNl v.lines
+def AcctLines.json (skipNone : Bool) (v : AcctLines) : J :=
+  .obj ((match v.account with | some a => [("account", .str a)] | none => if skipNone then [] else [("account", .null)]) ++
+    [("name_and_address", J.lines v.lines)])
+
+structure OptAcctBic where
+  account : Option Text
+  bic : Text
+  deriving Repr, DecidableEq
+
+def F59A.parse (input : Text) : Res OptAcctBic :=
+  match splitNl input with
+  | [] => .err
+  | l0 :: rest =>
+    match acctLenient l0 with
+    | .ok (some acc) =>
+      (match rest with
+       | [] => .err
+       | b :: rest' => match parseBic b with | .ok bic => if rest'.isEmpty then .ok ⟨some acc, bic⟩ else .err | .err => .err | .panic => .panic)
+    | .ok none => (match parseBic l0 with | .ok bic => if rest.isEmpty then .ok ⟨none, bic⟩ else .err | .err => .err | .panic => .panic)
+    | .err => .err
+    | .panic => .panic
+def F59A.ser (v : OptAcctBic) : Text :=
+  match v.account with
+  | some a => '/' :: a ++ '\n' :: v.bic
+  | none => v.bic
+
+/-- 51A: the party identifier is looked for only when there is a line break; a lone `/…` line of at most 36 bytes is
+rejected outright, anything else goes to `parse_bic` -/
+def F51A.parse (input : Text) : Res OptA :=
+  let viaNl : Res (Option (Text × Text)) :=
+    match findChar '\n' input with
+    | some p =>
+      (match parsePartyIdentifier (input.take p) with
+       | .ok (some id) => .ok (some ('/' :: id, input.drop (p + 1)))
+       | .ok none => .ok none
+       | .err => .err
+       | .panic => .panic)
+    | none => .ok none
+  match viaNl with
+  | .err => .err
+  | .panic => .panic
+  | .ok (some (pid, rem)) => (match parseBic rem with | .ok b => .ok ⟨some pid, b⟩ | .err => .err | .panic => .panic)
+  | .ok none =>
+    if input.head? == some '/' && blen input ≤ 36 && !input.contains '\n' then .err
+    else match parseBic input with | .ok b => .ok ⟨none, b⟩ | .err => .err | .panic => .panic
+def F51A.ser (v : OptA) : Text :=
+  match v.party with
+  | some p => p ++ '\n' :: v.bic
+  | none => v.bic
+
 end SwiftMT.Fields
